@@ -248,9 +248,10 @@ func GetAttr(v Value, attr Value, args ...Value) (Value, error) {
 			}
 		}
 	case reflect.Map:
-		// MapIndex panics on a key that is nil or of another type than the map's keys;
-		// such a key simply is not in the map.
-		if key := reflect.ValueOf(attr); key.IsValid() && key.Type().AssignableTo(r.Type().Key()) {
+		// MapIndex panics on a key that is nil, of another type than the map's keys, or
+		// not hashable (a slice or map in an interface-typed key); such a key simply is
+		// not in the map.
+		if key := reflect.ValueOf(attr); key.IsValid() && key.Type().AssignableTo(r.Type().Key()) && hashable(key) {
 			retval = r.MapIndex(key)
 		}
 	case reflect.Slice, reflect.Array:
@@ -304,6 +305,30 @@ func GetAttr(v Value, attr Value, args ...Value) (Value, error) {
 		return nil, fmt.Errorf("getattr: attribute \"%s\" on \"%v\" is not exported", attr, v)
 	}
 	return retval.Interface(), nil
+}
+
+// hashable reports whether v can be looked up in a map without panicking: the
+// dynamic type of v, and of every interface value inside it, is comparable.
+func hashable(v reflect.Value) bool {
+	switch v.Kind() {
+	case reflect.Slice, reflect.Map, reflect.Func:
+		return false
+	case reflect.Interface:
+		return v.IsNil() || hashable(v.Elem())
+	case reflect.Array:
+		for i := 0; i < v.Len(); i++ {
+			if !hashable(v.Index(i)) {
+				return false
+			}
+		}
+	case reflect.Struct:
+		for i := 0; i < v.NumField(); i++ {
+			if !hashable(v.Field(i)) {
+				return false
+			}
+		}
+	}
+	return true
 }
 
 func getMethod(v Value, name string) (reflect.Value, error) {
